@@ -237,7 +237,7 @@ pub fn bolt3_derive(secret: [u8; 32], bits: u32, idx: u64) -> [u8; 32] {
 pub fn sig_fact(v: u64, h: u64) -> u64 {
     match v {
         1 => 1,                                   // all genuine
-        0 => 0,                                   // commitment signature of another content
+        0 | 9 => 0,                               // commitment signature of another content / of the previous number
         2 | 3 | 4 => if h >= 1 { 0 } else { 1 },  // first / middle / last HTLC signature wrong
         5 | 6 => if h >= 1 { 2 } else { 1 },      // list too short: empty / n-1 genuine ones
         7 => 1,                                   // one surplus signature (ignored by the code)
@@ -255,7 +255,7 @@ pub fn sig_raw(v: u64, h: u64) -> (bool, Vec<bool>) {
     let mut bits = vec![true; h];
     let mut commit = true;
     match v {
-        0 => commit = false,
+        0 | 9 => commit = false,    // 9 (replayed signatures of the previous number) is only generated for n >= 1
         2 if h >= 1 => bits[0] = false,
         3 if h >= 1 => bits[h / 2] = false,
         4 if h >= 1 => bits[h - 1] = false,
@@ -327,6 +327,8 @@ pub struct World {
     pub dead: bool,
     /// a store-write failure is being injected into the running request
     pub in_fail: bool,
+    /// the first request kind that was refused under a transient store error (`failr`) in this history
+    pub store_error_in: Option<String>,
 }
 
 fn config_net(network: Network) -> NodeConfig {
@@ -522,6 +524,7 @@ impl World {
             secp: Secp256k1::new(),
             point_ids: BTreeMap::new(),
             secret_ids: BTreeMap::new(),
+            store_error_in: None,
             mon: Monitors::default(),
             tags: BTreeSet::new(),
             step: 0,
@@ -659,7 +662,11 @@ impl World {
             self.tags.insert("disarmed:c03-resign-changed".into());
             return;
         }
-        self.mon.violations.push(Violation { kind: kind.into(), desc, at: self.step });
+        let kind = match &self.store_error_in {
+            Some(fam) => format!("{}-after-store-error-in-{}", kind, fam),
+            None => kind.to_string(),
+        };
+        self.mon.violations.push(Violation { kind, desc, at: self.step });
     }
 
     /// a holder per-commitment secret left the signer
@@ -919,6 +926,14 @@ impl World {
                     6 if h >= 1 => hs.truncate(h - 1),
                     7 => hs.push(sig),
                     8 if h >= 2 => hs.swap(0, h - 1),
+                    // replay: the genuine signatures of the SAME content one commitment earlier (what the signer has stored
+                    // for the current commitment when `n` is the next one)
+                    9 if n >= 1 => {
+                        if let Some((_, s9, h9)) = self.holder_commitment(n - 1, c) {
+                            csig = s9;
+                            hs = h9;
+                        }
+                    }
                     _ => {}
                 }
                 (Some(ctx), csig, hs)
@@ -1139,6 +1154,24 @@ impl World {
         if kind == "store" {
             self.step += 1;
             return "ok".into();
+        }
+        if kind == "failr" {
+            // a TRANSIENT store error: every write fails during this one request, the process keeps running (the node retries
+            // or goes on; round 9).  What a refused request left in memory is whatever the code left there.
+            let inner = t[1..].join(" ");
+            self.fail.store(true, std::sync::atomic::Ordering::Relaxed);
+            self.in_fail = true;
+            let line = self.apply(&inner);
+            self.in_fail = false;
+            self.fail.store(false, std::sync::atomic::Ordering::Relaxed);
+            self.tags.insert(if line.starts_with("ok") { "failr:acknowledged".into() } else { "failr:refused".into() });
+            if !line.starts_with("ok") {
+                // ghost (survives restarts): which kind of request met a store error and was refused while the signer kept
+                // running; violations found afterwards carry it in their kind (`…-after-store-error-in-<request>`)
+                let fam = t.get(1).copied().unwrap_or("").trim_start_matches('h').trim_end_matches(|ch: char| ch.is_ascii_digit()).to_string();
+                self.store_error_in.get_or_insert(fam);
+            }
+            return format!("failr {}", line);
         }
         if kind == "failw" || kind == "failb" {
             // the store (failb: the backup side of the composite) refuses every write during this one request
